@@ -1276,11 +1276,11 @@ pub fn journal(quick: bool) -> Vec<Scenario> {
         // a graph whose submit lists its task ids out of ascending order
         Scenario::new(
             "journal-dag-unordered",
-            vec![w(1)],
-            vec![vec![sub(SubmitSpec::graph(&[(5, &[]), (2, &[]), (9, &[5])], RqSpec::cpus(1)))]],
+            vec![w(1), w(1).spare()],
+            vec![vec![sub(SubmitSpec::graph(&[(5, &[]), (2, &[]), (9, &[5])], RqSpec::cpus(1)).crash_limit("3"))]],
         )
         .journal()
-        .budgets(0, 1, 0, 1),
+        .budgets(1, 0, 1, 2),
         Scenario::new(
             "journal-prune",
             vec![w(1), w(1).spare()],
